@@ -231,3 +231,18 @@ def big_metadata(ctx):
     ctx.evaluations += len(sizes); d.close()
     ctx.ob('correspondence', f'headers with {len(sizes)} large metadata sizes ({sizes[0]} .. {sizes[-1]} bytes): round trip through the serialized form, authentication, and no record of the encrypted metadata opens under the returned secret', not bad, str(bad[:2])[:400])
     if bad: vf.violation(ctx, f'encrypted header with {bad[0][0]} bytes of metadata: {bad[0][1][:200]}', {'bigmeta': bad[0][0], 'what': bad[0][1], 'violations_total': len(bad)})
+
+
+def cleartext_roundtrips(ctx):
+    """C13: the CLEARTEXT header (secret + metadata returned by decrypt) has the announced length, is read back to the same
+    content, re-serializes to the same bytes; both header types can be read from a buffer that continues after them.
+    Metadata absent / empty / 1 / 127 / 128 / 300 / 20000 bytes (one- and two-byte length prefixes)."""
+    d = Demd(); bad = []
+    sizes = [None, 0, 1, 127, 128, 129, 300, 16383, 16384, 20000]
+    for n in sizes:
+        o = d.ask('CLR ' + ('-' if n is None else opt(bytes((i * 7) % 251 for i in range(n))))).split(' ')
+        if len(o) < 2 or o[0] != 'CL': bad.append((n, ' '.join(o)[:120]))
+        elif o[1] != '-': bad.append((n, o[1].replace('_', ' ')))
+    ctx.evaluations += len(sizes); d.close()
+    ctx.ob('correspondence', f'cleartext header round trips for {len(sizes)} metadata sizes (absent .. 20000 bytes): announced length, same content, same bytes; encrypted and cleartext headers read from a buffer that continues', not bad, str(bad[:2])[:400])
+    if bad: vf.violation(ctx, f'cleartext / encrypted header with {bad[0][0]} bytes of metadata: {bad[0][1][:200]}', {'cleartext': bad[0][0], 'what': bad[0][1], 'violations_total': len(bad)})
